@@ -10,7 +10,7 @@ import warnings
 
 from hypothesis import strategies as st
 
-from .. import convs, mutate, pdugen as g, refpdu, simnet
+from .. import convs, mutate, pdugen as g, refcmd, refpdu, simnet
 from ..common import Violation, HarnessError, hyp_search, parallel, lib_frame, VERIF_DIR, REPO, DEPS
 
 LEVEL = 'exploration'
@@ -19,6 +19,11 @@ U = lambda spec: ('user', {'pdu': spec})      # noqa
 B = lambda *specs: ('burst', convs.enc(*specs))  # noqa
 
 # name -> (role, prefix steps, user engaged and has not ended the association?)
+_STORE_PDUS = [refpdu.enc_pdu(p) for p in convs.store_rq_pdus(3, pc_id=3)]
+_FIND_CMD = refcmd.encode({0x0002: '1.2.840.10008.5.1.4.1.2.1.1', 0x0100: 0x0020, 0x0110: 5, 0x0700: 0, 0x0800: 0x0001})
+_FIND_PDUS = [refpdu.enc_pdu({'t': 4, 'r': 0, 'pdvs': [{'id': 1, 'data': h + d}]})
+              for h, d in ((b'\x03', _FIND_CMD), (b'\x00', b'\x08\x00\x52\x00\x08\x00\x00\x00PATI'), (b'\x02', b'ENT '))]
+
 STATES = {
     'Sta2': ('acceptor', [], False),
     # like Sta2, but the local user answers whatever request gets indicated the way AssociationAcceptor.accept does:
@@ -34,6 +39,12 @@ STATES = {
     # a DIMSE message half received / the release-collision states
     'Sta6-midmsg': ('acceptor', [B(convs.RQ_SPEC), U(convs.AC_SPEC),
                                  ('burst', [refpdu.enc_pdu({'t': 4, 'r': 0, 'pdvs': [{'id': 3, 'data': b'\x01' + b'\x00\x00\x00\x00\x04\x00\x00\x00'}]})])], True),
+    # ... the command set of a data-bearing message completely received, its data set outstanding or begun
+    #     (received into a file for the storage class, in memory for the query)
+    'Sta6-cmd-file': ('acceptor', [B(convs.RQ_SPEC), U(convs.AC_SPEC), ('burst', [_STORE_PDUS[0]])], True),
+    'Sta6-data-file': ('acceptor', [B(convs.RQ_SPEC), U(convs.AC_SPEC), ('burst', _STORE_PDUS[:2])], True),
+    'Sta6-cmd-mem': ('acceptor', [B(convs.RQ_SPEC), U(convs.AC_SPEC), ('burst', [_FIND_PDUS[0]])], True),
+    'Sta6-data-mem': ('acceptor', [B(convs.RQ_SPEC), U(convs.AC_SPEC), ('burst', _FIND_PDUS[:2])], True),
     'Sta9': ('requestor', [U(convs.RQ_SPEC), B(convs.AC_SPEC), U(convs.REL_RQ), B(convs.REL_RQ)], True),
     'Sta10': ('acceptor', [B(convs.RQ_SPEC), U(convs.AC_SPEC), U(convs.REL_RQ), B(convs.REL_RQ)], True),
     'Sta11': ('requestor', [U(convs.RQ_SPEC), B(convs.AC_SPEC), U(convs.REL_RQ), B(convs.REL_RQ), U(convs.REL_RP)], True),
@@ -41,7 +52,7 @@ STATES = {
 }
 STATE_NAMES = sorted(STATES)
 EXPECT_STATE = {'Sta2': 2, 'Sta2-accepting': 2, 'Sta3': 3, 'Sta5': 5, 'Sta6-acc': 6, 'Sta6-req': 6, 'Sta7': 7, 'Sta8': 8, 'Sta13': 13,
-                'Sta6-midmsg': 6, 'Sta9': 9, 'Sta10': 10, 'Sta11': 11, 'Sta12': 12}
+                'Sta6-midmsg': 6, 'Sta6-cmd-file': 6, 'Sta6-data-file': 6, 'Sta6-cmd-mem': 6, 'Sta6-data-mem': 6, 'Sta9': 9, 'Sta10': 10, 'Sta11': 11, 'Sta12': 12}
 
 
 def contexts():
@@ -141,7 +152,7 @@ def run_stream(state, stream, mode=0, file_backed=True):
     if hostile_first:
         # PDUs written after the prefix
         npre = {'Sta2': 0, 'Sta2-accepting': 0, 'Sta3': 0, 'Sta5': 1, 'Sta6-acc': 1, 'Sta6-req': 1, 'Sta7': 2, 'Sta8': 1, 'Sta13': 2,
-                'Sta6-midmsg': 1, 'Sta9': 2, 'Sta10': 2, 'Sta11': 3, 'Sta12': 2}[state]
+                'Sta6-midmsg': 1, 'Sta6-cmd-file': 1, 'Sta6-data-file': 1, 'Sta6-cmd-mem': 1, 'Sta6-data-mem': 1, 'Sta9': 2, 'Sta10': 2, 'Sta11': 3, 'Sta12': 2}[state]
         after = pdus[npre:]
         if not after or after[0]['t'] != 7:
             raise Violation('C12:no-abort', '%s: undecodable PDU (type %02XH, %d body bytes) not answered with A-ABORT; '
